@@ -142,7 +142,7 @@ channel_abort_write(struct channel* self)
 int
 stub_accumulate(struct VideoFrame* acc, const struct VideoFrame* in)
 {
-    VASSERT(fg.pending && (uint8_t*)acc == g_accbuf, "[C10.adds-into-pending-accumulator] accumulate targets the mapped accumulator");
+    VASSERT(fg.pending && (uint8_t*)acc == g_accbuf, "[C10.adds-into-pending-accumulator,C02.writes-only-into-mapped-region] accumulate targets the mapped accumulator (a region that was committed may already be held by a reader)");
     VASSERT(in == g_inframe, "[C10.each-frame-once] accumulate is given the frame the iterator just returned");
     VASSERT(acc->shape.type == SampleType_f32 && acc->shape.strides.planes == in->shape.strides.planes,
             "[C10.acc-has-input-shape] accumulator header initialised before the first add");
@@ -163,7 +163,7 @@ stub_accumulate(struct VideoFrame* acc, const struct VideoFrame* in)
 void
 stub_normalize(struct VideoFrame* acc, float inverse_norm)
 {
-    VASSERT(fg.pending && (uint8_t*)acc == g_accbuf, "[C10.adds-into-pending-accumulator] normalize targets the mapped accumulator");
+    VASSERT(fg.pending && (uint8_t*)acc == g_accbuf, "[C10.adds-into-pending-accumulator,C02.writes-only-into-mapped-region] normalize targets the mapped accumulator (a region that was committed may already be held by a reader)");
     VASSERT(fg.window == g_flt.filter_window_frames, "[C10.window-is-k-frames] a window is emitted when exactly k frames were added");
 #ifdef PD_LITERAL_K
     /* only in the units with a literal window size: with a symbolic count this is an
